@@ -115,3 +115,64 @@ def check(ctx, fns, rule="R1.fail", key_prefix="alloc-fail", allocators=None):
                    {"ok-return": "the NULL branch returns success", "call-return": "the NULL branch returns the result of further work",
                     "falls-through": "the NULL branch carries on without an error signal"}.get(c, ""))
     return n
+
+
+def check_atomic(ctx, fns, rule="R1.atomic", key_prefix="grow-atomic"):
+    """A failed growth leaves the object as it was: before a realloc whose NULL branch reports failure,
+    no count / capacity member (integer-typed) of the object that owns the reallocated pointer is
+    changed - unless the failing branch puts it back. (Pointer members may change: an earlier realloc of
+    a sibling array has already moved it.) Otherwise the object claims room it does not have, and the
+    next append writes past its block."""
+    P = ctx.P
+    n = 0
+    bounds = {}     # file -> member names used as a bound (operand of a relational comparison) in that file
+
+    def bound_members(file_):
+        if file_ not in bounds:
+            s_ = set()
+            for f_ in P.functions.values():
+                if f_.file != file_:
+                    continue
+                for x in f_.body.walk():
+                    if x.k == "BinaryOperator" and x.op in ("<", "<=", ">", ">="):
+                        for m in x.walk():
+                            if m.k == "MemberExpr":
+                                s_.add(m.name)
+            bounds[file_] = s_
+        return bounds[file_]
+    for fn in fns:
+        if fn.cfg is None:
+            continue
+        ords = R.call_ordinals(fn)
+        for call, tgt, g, then in null_branches(fn, {"realloc"}):
+            if classify(fn, then) != "error":
+                continue            # R1.fail reports that one
+            a0 = call.args()[0].strip_casts() if call.args() else None
+            if a0 is None or a0.k != "MemberExpr":
+                continue
+            base = src(a0.c[0].strip_casts()) if a0.c else None
+            if not base:
+                continue
+            n += 1
+            w = fn.cfg.where()
+            early = []
+            for s in fn.body.walk():
+                tgt_ = None
+                if is_assign(s):
+                    tgt_ = s.c[0].strip_casts()
+                elif s.k == "UnaryOperator" and s.op in ("++", "--"):
+                    tgt_ = s.c[0].strip_casts()
+                if tgt_ is None or tgt_.k != "MemberExpr" or not tgt_.c or src(tgt_.c[0].strip_casts()) != base:
+                    continue
+                if "*" in (tgt_.t or "") or "[" in (tgt_.t or "") or tgt_.name not in bound_members(fn.file):
+                    continue        # only members some comparison of the file uses as a bound (capacity, count)
+                if s.i in w and call.i in w and s is not call and fn.cfg.node_dominates(s, call):
+                    restored = any((is_assign(x) and src(x.c[0].strip_casts()) == src(tgt_)) for x in then.walk())
+                    if not restored:
+                        early.append(s)
+            key = "%s|%s:%s|%s" % (key_prefix, P.rel(fn.file), fn.name, ords[call.i])
+            ctx.ob(rule, key, P.where(call),
+                   "when growing `%s` fails, the counts and capacities of `%s` are what they were before the attempt"
+                   % (src(a0), base), not early,
+                   "; ".join("`%s` (line %s) is already changed when realloc fails" % (src(s)[:60], s.l) for s in early[:3]))
+    return n
